@@ -204,3 +204,20 @@ example : ∃ P', (⟨"r", []⟩ : CS).run (runHistory cfgX (init cfgX) hX).2 =
   exact ⟨P', h1⟩
 
 end BstreamVerif.Forkable
+
+namespace BstreamVerif.Forkable
+open BstreamVerif BstreamVerif.ForkDB
+
+/-! Non-vacuity of `history_discipline_discovery`: a hold-until-LIB forkable (the hub's configuration) fed the history
+    `hX`; the LIB is discovered at block `a5` (which declares LIB 2): the chain a3, a4, a5 is delivered as New and the
+    LIB block a2 is announced. -/
+private def cfgH : Config := { root := none, hold := true, kept := 1, allTrigger := false, filter := 51, fsb := 0 }
+
+example : Props.C01.LibHistOK cfgH (init cfgH) hX := libHistB_sound cfgH hX _ (by decide)
+example : UOK (ofList uX) ∧ ∀ b ∈ hX, ofList uX b.id = some b :=
+  ⟨uokB_sound uX (by decide), fun b hb => ofList_of_mem uX (by decide) b ((by decide : ∀ x ∈ hX, x ∈ uX) b hb)⟩
+example : ((runHistory cfgH (init cfgH) hX).2.map (fun e => (e.step, e.blk.id))) =
+    [(.new, "a3"), (.new, "a4"), (.new, "a5"), (.irreversible, "a2"), (.new, "a6"), (.irreversible, "a3"),
+     (.stalled, "b3")] := by decide
+
+end BstreamVerif.Forkable
